@@ -58,8 +58,10 @@ impl UnimplementedErr {
 pub trait ToPy { fn to_py(&self, imp: &mut Imports) -> Core; }
 impl ToPy for Name {
     #[verifier::external_body]
-    fn to_py(&self, imp: &mut Imports) -> (r: Core) ensures forall|m: Seq<char>, n: Seq<char>| imp_has_from(*old(imp), m, n) ==> imp_has_from(*final(imp), m, n) { unimplemented!() }
+    fn to_py(&self, imp: &mut Imports) -> (r: Core) ensures r == name_to_py(*self), forall|m: Seq<char>, n: Seq<char>| imp_has_from(*old(imp), m, n) ==> imp_has_from(*final(imp), m, n) { unimplemented!() }
 }
+/// the Python spelling of a type; A-EXT: a function of the Name alone (unit NAMEPY: of its SET of members; the import table only grows)
+pub uninterp spec fn name_to_py(n: Name) -> Core;
 impl ToPy for StringName {
     #[verifier::external_body]
     fn to_py(&self, imp: &mut Imports) -> (r: Core) ensures r == sn_to_py(*self), forall|m: Seq<char>, n: Seq<char>| imp_has_from(*old(imp), m, n) ==> imp_has_from(*final(imp), m, n) { unimplemented!() }
@@ -468,11 +470,30 @@ impl TrueName {
 pub fn verif_outline_as_deref<'a>(v: &'a Option<Box<Core>>) -> (r: Option<&'a Core>)
     ensures v is None ==> r is None, v matches Some(b) ==> r == Some(&**b),
 { unimplemented!() }
-/// HAVOCKED: the class of a handle arm `ty.as_ref().map_or_else(|| panic!(..), |ty| ty.to_py(imp))` (closure with
-/// panic! capturing &mut imp): arbitrary Core; that the panic is unreachable is NOT established here
-#[verifier::external_body]
-pub fn verif_havoc_case_class(imp: &mut Imports) -> (r: Core) ensures forall|m: Seq<char>, n: Seq<char>| imp_has_from(*old(imp), m, n) ==> imp_has_from(*final(imp), m, n) { unimplemented!() }
-
+/// the except clause emitted for one arm of a handle names the Python spelling of the class the arm declares (C08)
+pub open spec fn arm_class_ok(case: ASTTy, ex: Core) -> bool {
+    match case.node {
+        NodeTy::Case { cond, body } => match cond.node {
+            NodeTy::ExpressionType { expr, mutable, ty } => ty matches Some(t) && match ex {
+                Core::Except { class, body: b2 } => *class == name_to_py(t),
+                Core::ExceptId { id, class, body: b2 } => *class == name_to_py(t),
+                _ => false,
+            },
+            _ => false,
+        },
+        _ => false,
+    }
+}
+/// A-WF (precondition): every arm of a handle that reaches the generator declares a class (the checker rejects `err => ..`)
+pub open spec fn arms_typed(ast: ASTTy) -> bool {
+    match ast.node {
+        NodeTy::Handle { expr_or_stmt, cases } => forall|k: int| 0 <= k < cases@.len() ==> (match (#[trigger] cases@[k]).node {
+            NodeTy::Case { cond, body } => (match cond.node { NodeTy::ExpressionType { expr, mutable, ty } => ty is Some, _ => true }),
+            _ => true,
+        }),
+        _ => true,
+    }
+}
 pub open spec fn handle_target(e: ASTTy) -> Option<ASTTy> {
     match e.node { NodeTy::VariableDef { var, .. } => Some(*var), _ => None }
 }
@@ -490,13 +511,15 @@ pub open spec fn handle_post(ast: ASTTy, state: State, ctx: Context, c: Core) ->
             && (setup is Some) == (handle_target(*expr_or_stmt) is Some)
             && (setup matches Some(sd) ==> (*sd matches Core::VarDef { var, ty, expr } && expr is None
                     && Some(*var) == conv(handle_target(*expr_or_stmt)->Some_0, state, ctx)))
-            && except@.len() == cases@.len(),
+            && except@.len() == cases@.len()
+            // C08: one except clause per arm, in order, each naming the class its arm declares
+            && (forall|k: int| 0 <= k < cases@.len() ==> arm_class_ok(cases@[k], #[trigger] except@[k])),
         _ => true,
     }
 }
 
 #[verifier::loop_isolation(false)]
-//@@ FN src/generate/convert/handle.rs | free | convert_handle | props=C01,C11,C03
+//@@ FN src/generate/convert/handle.rs | free | convert_handle | props=C01,C11,C08,C03
 //@@ HAVOC
 //@@< ty.as_ref().map(|ty| ty.to_py(imp)).map(Box::from)
 //@@> verif_havoc::<Option<Box<Core>>>()
@@ -506,17 +529,21 @@ pub open spec fn handle_post(ast: ASTTy, state: State, ctx: Context, c: Core) ->
 //@@ CLOSURE
 //@@< var.map(|var| { Box::from(Core::VarDef { var, ty, expr: None, }) })
 //@@> (match var { Some(var) => Some(Box::from(Core::VarDef { var, ty, expr: None, })), None => None })
-//@@ HAVOC
-//@@< ty.as_ref().map_or_else( || panic!("handle case must have class"), |ty| ty.to_py(imp), )
-//@@> verif_havoc_case_class(imp)
+//@@ REPLACE deep
+//@@< ty.as_ref().map_or_else( || $$, |$aty| $$, )
+//@@> (match ty.as_ref() { Some($aty) => $$2, None => $$1 })
 //@@ ITERNAME
 //@@< for $case in cases
 //@@> for $case in it: cases
 //@@ LOOPINV
 //@@< for $case in cases
-//@@> invariant except@.len() == it.index@, forall|m: Seq<char>, n: Seq<char>| imp_has_from(*old(imp), m, n) ==> imp_has_from(*imp, m, n),
+//@@> invariant except@.len() == it.index@, forall|m: Seq<char>, n: Seq<char>| imp_has_from(*old(imp), m, n) ==> imp_has_from(*imp, m, n), arms_typed(*ast),
+//@@ INVCLAIM
+//@@< for $case in cases
+//@@> forall|k: int| 0 <= k < it.index@ ==> arm_class_ok(cases@[k], #[trigger] except@[k]), //# loop_every_except_clause_so_far_names_the_class_its_arm_declares [C08]
+    requires arms_typed(*ast),                                                   //# handle_arms_declare_a_class [-]
     ensures
-        r matches Ok(c) ==> handle_post(*ast, *state, *ctx, c),                  //# try_except_shape_with_predeclared_target [C01,C11]
+        r matches Ok(c) ==> handle_post(*ast, *state, *ctx, c),                  //# try_except_shape_with_predeclared_target_and_one_except_clause_per_arm_naming_its_class [C01,C11,C08]
         forall|m: Seq<char>, n: Seq<char>| imp_has_from(*old(imp), m, n) ==> imp_has_from(*final(imp), m, n),   //# imports_only_grow [C16]
 //@@ END
 
